@@ -345,8 +345,15 @@ def oracle_C13(spec, tr):
             # recomputed here from the documented law (not read from the recorded torque)
             m = tr['motor']
             if not dirty_here and deadzone_margin(m, D0) > 1e-9:
-                Ttrue = motor_law(m, 0.0, D0) - E[0]['load torque'][j - 1]
-                sT = max(abs(motor_law(m, 0.0, D0)), abs(E[0]['load torque'][j - 1]), 1e-12)
+                # the load torque on the motor at the held instant, recomputed from the user's load function at the recorded
+                # state and time and carried upstream through the matings
+                last_i = tr['n'] - 1
+                lt = load_value(spec, E[last_i]['angular position'][j - 1], E[last_i]['angular speed'][j - 1], tr['time'][j - 1],
+                                sim.loads_at(spec, tr)[j - 1][0])
+                for eta_, r_ in zip(reversed(tr['effs']), reversed(tr['ratios'])):
+                    lt = lt / eta_ / r_
+                Ttrue = motor_law(m, 0.0, D0) - lt
+                sT = max(abs(motor_law(m, 0.0, D0)), abs(lt), 1e-12)
                 if abs(Ttrue) > 1e-9 * sT and not ((Ttrue > 0 and D0 > 0) or (Ttrue < 0 and D0 < 0)):
                     out.append((f'released at instant {j} although the motor net torque at standstill ({Ttrue}) does not point in the '
                                 f'commanded direction ({D0})', {}))
